@@ -274,4 +274,5 @@ def run(ctx):
 
 SELFTESTS = [
     (rule_watford_guard, ["c13_bad.cc"], ["c13_good.cc"], "start==2"),
+    (rule_sides_from_hdfs_only, ["c13_bad.cc"], ["c13_good.cc"], "two-sided"),
 ]
